@@ -20,8 +20,8 @@
    the plan. *)
 EXTENDS Family, JsonG
 CONSTANTS SCN, CMS, MUT
-VARIABLES g, cm, mode
-vars == <<g, cm, mode>>
+VARIABLES g, cm, mode, enc, dec       \* enc, dec: Encode / Decode results, computed once per diagram in B3
+vars == <<g, cm, mode, enc, dec>>
 
 ScalarSeq == << ROne,
                 Sqrt2Pow(-3),                         \* exact class
@@ -39,12 +39,6 @@ Crd(x, m) == CASE m = "zero"     -> [v \in x.vs |-> <<0, 0>>]
                [] m = "distinct" -> [v \in x.vs |-> <<100 * v, 300 - 200 * v>>]
                [] m = "rows"     -> [v \in x.vs |-> <<100 * (v % 2), -500>>]
 
-Init == g = EmptyG /\ cm = "zero" /\ mode = "b1"
-B1 == mode = "b1" /\ g' \in Shapes /\ mode' = "b2" /\ UNCHANGED cm
-B2 == mode = "b2" /\ g' \in Wirings(g) /\ mode' = "b3" /\ UNCHANGED cm
-B3 == mode = "b3" /\ \E i \in 1..SCN : g' = [g EXCEPT !.sc = ScalarSeq[i]]
-      /\ cm' \in CMS /\ mode' = "done"
-Next == B1 \/ B2 \/ B3
 
 \* ----- faults injected into the document (sanity of the invariants) -----
 Mutate(doc) ==
@@ -61,17 +55,25 @@ Mutate(doc) ==
          [doc EXCEPT !.undir_edges = SelectSeq(@, LAMBDA e : ~(\E i \in 1..Len(doc.node_vertices) :
                                                   IsHNode(doc.node_vertices[i]) /\ doc.node_vertices[i].name = e.src))]
 
+Init == g = EmptyG /\ cm = "zero" /\ mode = "b1" /\ enc = Encode(EmptyG, <<>>) /\ dec = Decode(Encode(EmptyG, <<>>).doc)
+B1 == mode = "b1" /\ g' \in Shapes /\ mode' = "b2" /\ UNCHANGED <<cm, enc, dec>>
+B2 == mode = "b2" /\ g' \in Wirings(g) /\ mode' = "b3" /\ UNCHANGED <<cm, enc, dec>>
+B3 == /\ mode = "b3" /\ \E i \in 1..SCN : g' = [g EXCEPT !.sc = ScalarSeq[i]]
+      /\ cm' \in CMS /\ mode' = "done"
+      /\ enc' = [Encode(g', Crd(g', cm')) EXCEPT !.doc = Mutate(@)]
+      /\ dec' = Decode(enc'.doc)
+Next == B1 \/ B2 \/ B3
+
 crd == Crd(g, cm)
-enc == Encode(g, crd)
-doc == Mutate(enc.doc)
-dec == Decode(doc)
+doc == enc.doc
 Done == mode = "done"
 
 NoPanicRT == Done => ~enc.panic /\ ~dec.panic /\ ~dec.unsupported
 DocOK == Done => DocWF(doc) /\ DocSimple(doc) /\ DocPlain(doc)
 RoundTripIso == Done => ~dec.panic /\ IsoAnchoredC(dec.g, dec.cg, g, crd)
 Unit(x) == [x EXCEPT !.sc = ROne]
-RoundTripDen == Done => ~dec.panic /\ IF ScalarExactDoc(doc.scalar) THEN Den(dec.g) = Den(g)
+\* coordinates do not enter the denotation: evaluated for one layout only
+RoundTripDen == Done /\ cm = "zero" => ~dec.panic /\ IF ScalarExactDoc(doc.scalar) THEN Den(dec.g) = Den(g)
                                        ELSE Den(Unit(dec.g)) = Den(Unit(g))
 ScalarRT == Done => IF ExactPhasePow(g.sc)[1] \/ g.sc = RZero
                     THEN ScalarExactDoc(doc.scalar) /\ DecodeScalar(doc.scalar) = g.sc /\ dec.g.sc = g.sc
